@@ -71,6 +71,18 @@ def deep_program(rng, tier, asan=False):
     seq(["vxyz 5 2", "mchainself 6 5 add %d" % (big // 4), "vmove 7 6", "vdestroy 6", "vdestroy 5", "vdestroy 7"])
     seq(["vxyz 5 0", "vvar 6", "mfan 7 5 6 %s %s %d" % (rng.choice(["sin", "abs"]), rng.choice(["min", "max"]), big // 4),
          "vdestroy 5", "vdestroy 7", "vdestroy 6"])
+    # deep chains through every child slot of the remap / apply node kinds (the quantifier names them): the
+    # destructor must move ALL members onto its heap work stack, whichever slot the chain runs through
+    deep2 = big // 4
+    pr = rng.randrange(4)
+    seq(["vxyz 5 0", "vxyz 6 1", "mchainremap 7 5 6 %d %d" % (pr, deep2), "vcopy 8 7", "vdestroy 7", "vdestroy 8",
+         "vdestroy 6", "vdestroy 5"])
+    seq(["vxyz 5 2", "vxyz 6 0", "mchainremap 7 5 6 %d %d" % ((pr + 1 + rng.randrange(3)) % 4, deep2), "vdestroy 6",
+         "vdestroy 5", "vdestroy 7"])
+    seq(["vxyz 5 0", "vvar 6", "vxyz 7 1", "mchainapply 8 5 6 7 0 %d" % deep2, "vdestroy 7", "vdestroy 6", "vdestroy 5",
+         "vdestroy 8"])
+    seq(["vxyz 5 1", "vvar 6", "vxyz 7 2", "mchainapply 8 5 6 7 1 %d" % deep2, "vmove 9 8", "vdestroy 8", "vdestroy 9",
+         "vdestroy 7", "vdestroy 6", "vdestroy 5"])
     # optimise + print a moderately deep chain, evaluator on a 2000-deep one
     m = 20000 if not asan else 5000
     seq(["vxyz 5 0", "mchainun 6 5 sin %d" % m, "vopt 7 6", "vprint 6", "vdestroy 6", "vdestroy 7", "vdestroy 5"])
